@@ -10,7 +10,7 @@ from ..forkpool import prepare_imports, run_cases
 from ..lattice import ALL, EMBEDDINGS, OffLattice
 
 # eight embeddings plus the small-magnitude one (1e-6 units: the area tolerance exceeds the module areas there)
-EMBS = ALL + ["micro"]
+EMBS = ALL + ["micro", "mega"]
 from .. import tlc
 
 C02_CLAUSES = {"constructs", "succeeds", "same_tiling", "same_areas", "same_centroids", "inherits", "fixed_uncut", "accessors",
